@@ -33,7 +33,7 @@ RULE = (
     'length boundary and around max_frame_size+5) x 1..4 data links on distinct channels, each with '
     'max_frame_size 23..32767 and initial_credits 1..7 drawn independently for client and server x programs of '
     'write(size) / write(size) x count in both directions (sizes 1 byte .. 3 x effective frame size, dense at '
-    'multiples of the frame size +-1), run, sync, close by client or server, reopen, refused open, early write '
+    'multiples of the frame size +-1), run, sync, close by client, by server or by both at once, reopen, refused open, early write '
     'by the server before the client has a sink x end action {none, multiplexer disconnect by client / by server '
     'with data links open, Client.shutdown} x order-preserving HCI delays per device. non-trivial = some '
     'direction of some link carries more than initial_credits x frame size bytes, or >=2 data links, or a '
@@ -392,7 +392,7 @@ def exec_rfcomm(case) -> Collector:
             pos = stream.received
             stream.received += len(data)
             if link.bad is None:
-                expected = stream.sent()[pos : pos + len(data)]
+                expected = bytes(stream._cache[pos : min(pos + len(data), stream.written)])
                 if expected != data:
                     link.bad = (writer, pos, data, expected)
             if arrived is not None:
@@ -581,10 +581,15 @@ def exec_rfcomm(case) -> Collector:
                 await sync()
                 if not check_streams() or not check_ledger():
                     return
-                col.labels.add(f'close_by_{"client" if side == CLIENT else "server"}')
+                col.labels.add({CLIENT: 'close_by_client', SERVER: 'close_by_server'}.get(side, 'close_by_both'))
                 state['wait'] = ('disconnect', li, side)
                 try:
-                    await link.dlc[side].disconnect()
+                    if side in (CLIENT, SERVER):
+                        await link.dlc[side].disconnect()
+                    else:
+                        # both ends close at the same time
+                        await asyncio.gather(link.dlc[CLIENT].disconnect(), link.dlc[SERVER].disconnect())
+                        side = CLIENT
                 except asyncio.CancelledError:
                     raise
                 except Exception as e:  # noqa: BLE001
@@ -869,7 +874,7 @@ def rfcomm_cases(draw, budget: int):
             elif kind == 'sync':
                 ops.append(['sync'])
             elif kind == 'close':
-                ops.append(['close', li, w])
+                ops.append(['close', li, draw(st.sampled_from([CLIENT, SERVER, CLIENT, SERVER, 'b']))])
                 if draw(st.booleans()):
                     ops.append(['reopen', li])
             elif kind == 'reopen':
@@ -1378,9 +1383,9 @@ def hfp_cases(masks=None, with_commands=True):
         st.sampled_from(sorted(SUITE_MASKS)),
     )
     hf_ind = st.lists(st.sampled_from([1, 2, 3]), max_size=4)
-    # (.map keeps one_of from flattening the big HF-role alternative into the choice)
-    commands = st.lists(st.one_of(hf_role_commands().map(list), raw_commands()), max_size=5) \
-        if with_commands else st.just([])
+    # (flatmap keeps one_of from flattening the big HF-role alternative into the choice: 40 % raw lines)
+    one_command = st.integers(0, 4).flatmap(lambda n: raw_commands() if n < 2 else hf_role_commands())
+    commands = st.lists(one_command, max_size=5) if with_commands else st.just([])
     calls = st.lists(
         st.tuples(st.integers(1, 3), st.integers(0, 1), st.integers(0, 5), st.sampled_from([0, 1, 2, 9]),
                   st.integers(0, 1), st.one_of(st.none(), st.text('0123456789', min_size=1, max_size=8)),
@@ -1434,7 +1439,7 @@ def run(ctx) -> None:
     vloop.selftest()
     selftest()
     budget = ctx.pick(40_000, 250_000)
-    ctx.hyp('rfcomm', lambda c: run_rfcomm_case(ctx, c), rfcomm_cases(budget), max_examples=ctx.n(320, 8000))
+    ctx.hyp('rfcomm', lambda c: run_rfcomm_case(ctx, c), rfcomm_cases(budget), max_examples=ctx.n(320, 16000))
 
     # HFP: fixed feature-mask families (sharded), then sampled configurations with command programs
     fixed = list(pairwise_masks())
@@ -1459,7 +1464,7 @@ def run(ctx) -> None:
 
         ctx.hyp('hfp_fixed', fixed_case, hfp_cases(masks=st.just((0, 0)), with_commands=False),
                 max_examples=len(mine) * ctx.pick(1, 4))
-    ctx.hyp('hfp', lambda c: run_hfp_case(ctx, c), hfp_cases(), max_examples=ctx.n(240, 28000))
+    ctx.hyp('hfp', lambda c: run_hfp_case(ctx, c), hfp_cases(), max_examples=ctx.n(240, 40000))
 
     # every raw arity / form variant of every table name, in sessions of 6 lines, on fixed configurations
     lines = raw_enumeration()
